@@ -115,6 +115,7 @@ type Verdict struct {
 	Counters   map[string]int64 `json:"counters,omitempty"`
 	SitePert   map[string]int64 `json:"site_pert,omitempty"`
 	OutHash    uint64           `json:"out_hash,omitempty"`
+	Features   []string         `json:"features,omitempty"`
 	Case       *Case            `json:"case,omitempty"` // present when failing or when a sample was requested
 }
 
